@@ -604,14 +604,17 @@ fn rand_str(rng: &mut Rng, pool: &[&str]) -> String {
 
 fn rand_route(rng: &mut Rng, h: usize, j: usize) -> Entry {
     let arity = *rng.pick(&[1, 1, 1, 2, 3, 4]);
-    let ps: Vec<String> = (0..arity).map(|x| format!("/h{}r{}{}", h, j, if x == 0 { "/*".to_string() } else { format!("/p{}", x) })).collect();
+    // names in an order that is neither ascending nor descending: a loader that sorts routes or patterns is noticed
+    const RT: [&str; 9] = ["q", "c", "x", "a", "m", "z", "e", "k", "b"];
+    const PS: [&str; 4] = ["/w/*", "/b", "/t", "/a"];
+    let ps: Vec<String> = (0..arity).map(|x| format!("/h{}{}{}", h, RT[(j - 1) % 9], PS[x])).collect();
     let mut es = vec![];
     match rng.below(6) {
         0 => es.push(key("file", &q(&rand_str(rng, &["/var/www/index.html", "/srv/my file.txt", "logo.png"])))),
         1 => es.push(key("directory", &q(&rand_str(rng, &["/var/www", "/srv/a b", "."])))),
         2 => {
             let n = rng.range(1, 3);
-            let t: Vec<String> = (0..n).map(|i| format!("10.0.{}.{}:{}", i, rng.below(256), 8000 + rng.below(100))).collect();
+            let t: Vec<String> = (0..n).map(|i| format!("10.0.{}.{}:{}", [5, 9, 2][i], rng.below(256), 8000 + rng.below(100))).collect();
             es.push(key("proxy", &q(&t.join(","))));
             match rng.below(3) { 0 => {} 1 => es.push(key("load_balancer_mode", &q("round-robin"))), _ => es.push(key("load_balancer_mode", &q("random"))) }
         }
@@ -784,8 +787,8 @@ fn inject(ast: &mut Ast, rng: &mut Rng) {
             "MissingValue" => e.v = String::new(),
             "BadNumber" => e.v = rng.pick(&[format!("{}x", e.v), "1.5".to_string(), "--1".to_string(), "1e3".to_string()]).clone(),
             "UnknownUnit" => { let d: String = e.v.chars().filter(|c| c.is_ascii_digit()).collect(); e.v = format!("{}{}", d, rng.pick(&["T", "KB", " M", "KK"])); }
-            "TooBig" => e.v = rng.pick(&["9999999999G", "8589934592G", "99999999999999999999"]).to_string(),
-            "OutOfRange" => e.v = rng.pick(&["-1", "-1K"]).to_string(),
+            "TooBig" => e.v = rng.pick(&["9999999999G", "8589934592G", "99999999999999999999", "17179869184G", "17179869185G"]).to_string(),
+            "OutOfRange" => e.v = if e.k == "threads" && rng.chance(1, 2) { "0".to_string() } else { rng.pick(&["-1", "-1K"]).to_string() },
             "UnterminatedQuote" => e.v = if rng.chance(1, 2) { e.v[..e.v.len() - 1].to_string() } else { e.v[1..].to_string() },
             "BadEnum" => e.v = q("bogus"),
             _ => {
